@@ -215,16 +215,19 @@ class EvalProp(PropCheck):
     def shrink_e2e(self, cur):
         """shrink an E2E case through its AST, re-rendering compactly"""
         from .core import shrink_tuple
+        import itertools
         cands = []
         q, d = cur.fields
-        for q2 in shrink_tuple(q):
+        for q2 in itertools.islice(shrink_tuple(q), 300):
+            if len(cands) >= 60:
+                break
             if gen.parser_shaped(q2) and gen.valid_ast(q2):
                 try:
                     text = gen.render(q2, gen.Layout(self.rng, 0.0))
                 except Exception:
                     continue
                 cands.append(Case("s%d" % len(cands), "EVAL", [q2, d], dict(cur.meta, query=text), impl=("E2E", [S(text), d])))
-        for d2 in shrink_tuple(d):
+        for d2 in itertools.islice(shrink_tuple(d), 60):
             text = cur.meta.get("query")
             cands.append(Case("s%d" % len(cands), "EVAL", [q, d2], cur.meta, impl=("E2E", [cur.impl[1][0], d2])))
         return cands
@@ -474,6 +477,19 @@ class C04(EvalProp):
             for l in small:
                 for r in small:
                     out.append(mk(filt(("cmp", op, ("lit", lit_of(l)), ("lit", lit_of(r)))), ("a", ("i", 0)), {"table": "literal-literal", "op": op}))
+        # number grid: every ordered pair of integers and halves/quarters around zero in both representations, and
+        # integers around 2^31, 2^32, 2^53 in both representations (mixed int/float arms of the comparison code)
+        grid = [("i", k) for k in range(-4, 5)] + [f_(k / 4.0) for k in range(-17, 18)] \
+            + [v for b in (2**31, 2**32, 2**52) for k in (-1, 0, 1) for sg in (1, -1) for v in (("i", sg * (b + k)), f_(float(sg * (b + k))), f_(sg * (b + k) + 0.5))]
+        gelems = [o_(x=a, y=b) for a in grid for b in grid]
+        grid_doc = ("a",) + tuple(gelems)
+        for op in OPS6:
+            out.append(mk(filt(("cmp", op, x, y)), grid_doc, {"table": "number-grid", "op": op}))
+        gsingle = ("a",) + tuple(o_(x=a) for a in grid)
+        for op in ("lt", "ge", "eq"):
+            for l in grid[:44:3]:
+                out.append(mk(filt(("cmp", op, x, ("lit", lit_of(l)))), gsingle, {"table": "grid-literal", "op": op}))
+                out.append(mk(filt(("cmp", op, ("lit", lit_of(l)), x)), gsingle, {"table": "literal-grid", "op": op}))
         # current node against a member of the root; function results on either side
         rootdoc = o_(k=("i", 1), vals=("a",) + tuple(V_ALL))
         for op in OPS6:
@@ -744,6 +760,17 @@ class ParseProp(PropCheck):
     def mk(self, cid, text, meta):
         return Case(cid, "PARSE", [S(text)], dict(meta, query=text))
 
+    def template_cases(self):
+        """the deterministic combinatorial streams (vlib/templates.py): blank-space slot sweep in every context and the
+        function typing matrix; the RFC recogniser decides which property judges each sentence"""
+        from . import templates
+        out = []
+        for i, (text, meta) in enumerate(templates.slot_sweep(self.tier == "quick")):
+            out.append(self.mk("ts%d" % i, text, meta))
+        for i, (text, meta) in enumerate(templates.typing_matrix()):
+            out.append(self.mk("tt%d" % i, text, meta))
+        return out
+
     def verdict_common(self, c, ans):
         I, M, R = ans.get("I"), ans.get("M"), ans.get("R")
         if not I or not M or not R:
@@ -792,6 +819,7 @@ class C06(ParseProp):
             out.append(self.mk("r%d" % i, text, meta))
         for j, text in enumerate(self.fixed_sentences()):
             out.append(self.mk("f%d" % j, text, {"kind": "fixed"}))
+        out.extend(self.template_cases())
         return out
 
     def judge(self, c, ans):
@@ -801,6 +829,8 @@ class C06(ParseProp):
         I, M, R = ans["I"], ans["M"], ans["R"]
         key = c.meta["query"]
         self.count("rfc_" + R[0])
+        if c.meta.get("kind") in ("slots", "typing"):
+            self.count("%s_%s_%s" % (c.meta["kind"], c.meta.get("slots", c.meta.get("use")), R[0]))
         if R[0] != "VALID":
             return Verdict("ok", detail="not a valid sentence: C07 judges it")
         if I[0] == "OK":
@@ -872,6 +902,7 @@ class C07(ParseProp):
                  "$[?Length(@.a)==1]", "$[?_f(@.a)]", "$[?1f(@.a)]", "$.a.\u0000", "$['\u0000']", "$['\u001f']", "$[\"\u0007\"]", "$[?@.a=='\u0001']", "$. a", "$.. a", "$..\ta"]
         for j, text in enumerate(fixed):
             out.append(self.mk("f%d" % j, text, {"kind": "fixed"}))
+        out.extend(self.template_cases())
         # arbitrary strings
         alpha = gen.TOKEN_ALPHABET
         for j in range(n // 10):
@@ -888,6 +919,8 @@ class C07(ParseProp):
         I, M, R = ans["I"], ans["M"], ans["R"]
         key = c.meta["query"]
         self.count("rfc_" + R[0])
+        if c.meta.get("kind") in ("slots", "typing"):
+            self.count("%s_%s_%s" % (c.meta["kind"], c.meta.get("slots", c.meta.get("use")), R[0]))
         if R[0] in ("VALID", "EXT"):
             return Verdict("ok", detail="valid sentence or extension call: outside C07")
         if I[0] == "ERR":
@@ -977,7 +1010,38 @@ class C13(EvalProp):
                     continue
                 out.append(Case("g%s%d_%d" % (tag, gi, j), "EVAL", [q2, d], {"group": tag + str(gi), "query": text}, impl=("E2E", [S(text), d])))
             gi += 1
+        out.extend(self.slot_groups(tag))
         return out
+
+    SLOT_DOC = None
+
+    def slot_groups(self, tag):
+        """blank-space variants of one template sentence (vlib/templates.py) form a group: string-level cases, where the model
+        side runs the model parser and then the model evaluator, and the RFC side the reference recogniser and the semantics"""
+        from . import templates
+        o = lambda **kw: o_(**kw)
+        el = [o(a=("i", 1), b=S("x"), c=f_(2.5), d=("i", 0), e=("i", 100), f=S("x"), x=("i", 1), y=("i", 2), z=("i", 3), k=("a", ("i", 1), o(x=("i", 1))), q=("i", 1)),
+              o(a=("a", ("i", 1), ("i", 2)), c=("a", o(x=("i", 1), y=("i", 1), z=("i", 1)), o(x=("i", 1)), o(a=("i", 1), b=("i", 2), c=("i", 3))), k=("i", 5)),
+              o(b=("i", 1), c=("i", 2), d=S("e"), k=("a", o(a=("i", 1), b=("i", 1), c=("i", 1)), o(a=S("x"))), s=("a", ("i", 1)), w=("i", 1), z="null"),
+              ("a", o(a=("i", 1), b=("i", 2), c=("i", 3), d=("i", 4), e=("i", 5)), ("i", 7)), S("str"), "null"]
+        doc = o(s=("a",) + tuple(el), k=("a",) + tuple(el[:3]), x=o(y=("i", 1)), a=("i", 1), t=("i", 1), **{"0": el[0], "1": el[1], "2": el[2]})
+        groups = {}
+        for text, m in templates.slot_sweep(self.tier == "quick"):
+            if m["slots"] in ("none", "all", "one-allowed", "two-allowed"):
+                groups.setdefault((m["ctx"], m["expr"]), []).append(text)
+        out = []
+        for (ci, ei), texts in sorted(groups.items()):
+            if self.tier == "quick" and len(texts) > 14:
+                texts = texts[:4] + [texts[i] for i in sorted(self.rng.sample(range(4, len(texts)), 10))]
+            for j, text in enumerate(texts):
+                out.append(Case("t%s%d_%d_%d" % (tag, ci, ei, j), "STR", [S(text), doc], {"group": "%st%d_%d" % (tag, ci, ei), "query": text, "kind": "slots"},
+                                impl=("E2E", [S(text), doc])))
+        return out
+
+    def judge(self, c, ans):
+        if c.kind == "STR" and ans.get("R") and ans["R"][0] != "OK":
+            return Verdict("ok", detail="the reference recogniser does not read this template as a valid query")
+        return EvalProp.judge(self, c, ans)
 
     def obs(self, items):
         return locs(items)
